@@ -206,3 +206,46 @@ package schema
 //@           ==> spellsDecoded(result, unbox(consOf(n).data[constraint.TypeConstraintType], *constraint.TypeConstraint).value)
 //@   ensures !hasRule(n, constraint.EnumConstraintType) && !hasRule(n, constraint.OrConstraintType) && !(hasRule(n, constraint.TypeConstraintType) && typeis(consOf(n).data[constraint.TypeConstraintType], *constraint.TypeConstraint))
 //@           ==> result == (hasRule(n, constraint.PrecisionConstraintType) ? "decimal" : jsonTypeStr(jtypeOf(n)))
+
+// ASSUMED interface contract (the five implementations are not all verified
+// against it): building the AST of a node only allocates
+//@ interface Node.ASTNode(self)
+//@   requires isNode(self)
+//@   maypanic
+//@ interface Node.Comment(self)
+//@   requires isNode(self)
+//@   pure
+
+// ASSUMED: rule collection (Each with a closure that fills a fresh ordered map) only allocates
+//@ func collectASTRules(cc)
+//@   props C16
+//@   trusted "rule collection fills a fresh ordered map through an accumulating closure (outside the verified subset): assumed to change nothing the caller can see"
+//@   maypanic
+//@   defines normal ==> result != nil
+
+// C16: "object properties in declaration order with key-shortcut flag": property i
+// of the AST carries key i and ITS OWN shortcut flag as recorded by the loader
+//@ func (*ObjectNode).collectASTProperties()
+//@   props C16
+//@   requires n != nil && n.keys != nil
+//@   assumes forall i :: 0 <= i && i < len(n.keys.Data) ==> 0 <= n.keys.Data[i].Index && n.keys.Data[i].Index < len(n.children) && isNode(n.children[n.keys.Data[i].Index])
+//@   maypanic
+//@   ensures normal && result1 == nil ==> len(result0) == len(n.keys.Data)
+//@   ensures normal && result1 == nil ==> (forall i :: 0 <= i && i < len(result0) ==> result0[i].Key == n.keys.Data[i].Key && result0[i].IsKeyShortcut == n.keys.Data[i].IsShortcut)
+//@   loop 0 invariant len(pp) == rangeindex + 1 && pp.$arr > old(alloc) && cap(pp) >= len(n.keys.Data)
+//@   loop 0 invariant forall i :: 0 <= i && i < len(pp) ==> pp[i].Key == n.keys.Data[i].Key && pp[i].IsKeyShortcut == n.keys.Data[i].IsShortcut
+
+// C16: the AST node of a type shortcut carries its text; an or-shortcut (any '|' in the text) has schema type "mixed"
+//@ func astNodeFromNode(n)
+//@   props C16
+//@   requires isNode(n) && consReady(n)
+//@   requires hasRule(n, constraint.TypeConstraintType) && typeis(consOf(n).data[constraint.TypeConstraintType], *constraint.TypeConstraint) ==> ival(consOf(n).data[constraint.TypeConstraintType]) != 0 && len(unbox(consOf(n).data[constraint.TypeConstraintType], *constraint.TypeConstraint).value) <= 1000000000000
+//@   maypanic
+
+//@ func (*MixedValueNode).ASTNode()
+//@   props C16
+//@   requires n != nil && consReady(box(n))
+//@   assumes hasRule(box(n), constraint.TypeConstraintType) && typeis(consOf(box(n)).data[constraint.TypeConstraintType], *constraint.TypeConstraint) ==> ival(consOf(box(n)).data[constraint.TypeConstraintType]) != 0 && len(unbox(consOf(box(n)).data[constraint.TypeConstraintType], *constraint.TypeConstraint).value) <= 1000000000000
+//@   maypanic
+//@   ensures normal ==> result1 == nil && result0.Value == n.value
+//@   ensures normal ==> result0.SchemaType == ((exists i :: 0 <= i && i < len(n.value) && n.value[i] == '|') ? "mixed" : n.schemaType)
